@@ -152,6 +152,22 @@ def one(M, rec, rng, g, desc, kind, symvals):
         except Exception as e:
             rec.violation(f"{PROP}:scaling in place:{kind}: the rescaled network cannot be stepped ({type(e).__name__})",
                           dict(ctx, exception=repr(e)[:300]))
+    # (c'') individual turn rates re-assigned in place (relative shares change) on the stepped objects vs a
+    #       freshly built network with the same elements, connections and turn rates
+    if kind == "numpy":
+        try:
+            d5 = copy.deepcopy(desc)
+            NE, CE = drive.engines(M)
+            for l in d5["links"]:
+                l["beta"] = round(rng.uniform(0.1, 2.5), 3)
+                b0.links[l["id"]].turnrate = l["beta"]
+            b0.net.step(init_conditions=drive.np_init(b0, vals, "vec1"), engine=NE(), **drive.step_pars(pars))
+            r_old = drive.read_next(b0)
+            r_new, _ = step_next(M, d5, vals, pars, kind, None, None, symvals)
+            rec.count("relation_reassigned_in_place")
+            same(rec, "turn rates re-assigned in place on an already stepped network vs a fresh network", kind, desc, r_new, r_old, ctx)
+        except Exception as e:
+            rec.violation(f"{PROP}:re-assigned turn rates:{kind}: cannot be stepped ({type(e).__name__})", dict(ctx, exception=repr(e)[:300]))
     # (d) share = beta / sum(beta), measured from inferred inflows
     T = pars["T"]
     for n in desc["nodes"]:
